@@ -98,12 +98,14 @@ type ChunkReader struct {
 	rkey    cbor.RawBytes
 	key     string
 	buffer  []byte
+	maxSize uint16 // largest size ever asked for, i.e. the size of an empty message
 }
 
 // ReadChunk reads ServiceInfo chunked at some MTU. The values contain any
 // number of logical ServiceInfos. When no more ServiceInfo will be available,
 // an io.EOF error is returned.
 func (r *ChunkReader) ReadChunk(size uint16) (*KV, error) {
+	r.maxSize = max(r.maxSize, size)
 	if r.r == nil {
 		// Get the next reader, which will be chunked into zero or more KVs
 		simYield("ChunkReader.next.wait")
@@ -114,12 +116,11 @@ func (r *ChunkReader) ReadChunk(size uint16) (*KV, error) {
 		}
 		r.r = nextReader
 
-		// Limit the max bytes read for the key to size minus 7 (min overhead,
-		// see note below)
-		keyReader := io.LimitReader(r.r, int64(size-7))
-
-		// Read key as raw CBOR
-		if err := cbor.NewDecoder(keyReader).Decode(&r.rkey); err != nil {
+		// Read key as raw CBOR. The key is always read in full: if it turns
+		// out not to fit into the remaining size, ErrSizeTooSmall is returned
+		// below and the reader and its key are kept for the next call, so that
+		// the message moves to the next batch instead of being lost.
+		if err := cbor.NewDecoder(r.r).Decode(&r.rkey); err != nil {
 			_ = r.r.CloseWithError(err)
 			r.r = nil
 
@@ -159,6 +160,15 @@ func (r *ChunkReader) ReadChunk(size uint16) (*KV, error) {
 		maxOverhead++
 	}
 	if int(size)-maxOverhead <= 0 {
+		// Not even one byte of the value fits. In a partially filled message
+		// this means "start a new message"; if the message was empty the key
+		// can never be sent.
+		if size >= r.maxSize {
+			err := fmt.Errorf("service info key %q does not fit into a message of size %d", r.key, size)
+			_ = r.r.CloseWithError(err)
+			r.r = nil
+			return nil, err
+		}
 		return nil, ErrSizeTooSmall
 	}
 
